@@ -148,6 +148,27 @@ fn gen_hull_degenerate(rng: &mut Rng, rounds: usize, cases: &mut Vec<Case>) {
     cases.push(hull_case("hull-extreme", &e2));
 }
 
+/// point clouds of a thousand points and more (block-wise or divide-and-conquer variants change strategy at such
+/// sizes); sizes just above multiples of 1024 included
+fn gen_hull_large(rng: &mut Rng, quick: bool, cases: &mut Vec<Case>) {
+    let sizes: &[usize] = if quick { &[1024, 1025, 2049, 4097] } else { &[1023, 1024, 1025, 1026, 2048, 2049, 3073, 4097, 8193, 10241] };
+    for &n in sizes {
+        let center = (rng.range(-40_000_000, 40_000_000), rng.range(-100_000_000, 100_000_000));
+        let r = *rng.pick(&[1_000i64, 100_000, 5_000_000]);
+        let mut pts: Vec<P> = Vec::with_capacity(n);
+        for _ in 0..n {
+            // disc-like cloud: many interior points, a few dozen hull vertices
+            let (dx, dy) = (rng.range(-r, r), rng.range(-r, r));
+            if dx * dx + dy * dy <= r * r {
+                pts.push(((center.0 + dx) as i32, (center.1 + dy) as i32));
+            } else {
+                pts.push(((center.0 + dx / 2) as i32, (center.1 + dy / 2) as i32));
+            }
+        }
+        cases.push(hull_case("hull-large", &pts));
+    }
+}
+
 fn gen_hull_random(rng: &mut Rng, count: usize, cases: &mut Vec<Case>) {
     for i in 0..count {
         let n = match i % 5 {
@@ -579,6 +600,7 @@ fn generate(rng: &mut Rng, tier: Tier, cases: &mut Vec<Case>) {
     }
     gen_hull_degenerate(&mut rng.fork(), if quick { 150 } else { 3000 }, cases);
     gen_hull_random(&mut rng.fork(), if quick { 3000 } else { 60000 }, cases);
+    gen_hull_large(&mut rng.fork(), quick, cases);
     gen_hull_near_collinear_far(&mut rng.fork(), if quick { 600 } else { 12000 }, cases);
     gen_zorder(&mut rng.fork(), tier, cases);
     gen_bbox(&mut rng.fork(), if quick { 1500 } else { 30000 }, cases);
@@ -929,7 +951,16 @@ fn exec_scaffold(ops: &[Vec<&str>], obs: &mut Vec<String>) {
     std::fs::write(&pf, &pb).unwrap();
     std::fs::write(&cf, &cb).unwrap();
     std::fs::write(&gf, &gb).unwrap();
+    // every second case: the output path already holds a (much longer) file from an earlier run; the others: no file
     let _ = std::fs::remove_file(&of);
+    if nodes.len() % 2 == 0 {
+        let mut prev = String::from("{\"type\":\"FeatureCollection\",\"features\":[");
+        for i in 0..4000 {
+            prev.push_str(&format!("{{\"type\":\"Feature\",\"geometry\":{{\"type\":\"Polygon\",\"coordinates\":[[[{i}.0,1.0],[2.0,3.0],[{i}.0,1.0]]]}},\"properties\":null}},"));
+        }
+        prev.push_str("]}");
+        std::fs::write(&of, prev).unwrap();
+    }
     let st = std::process::Command::new(&bin)
         .args(["-p", &pf, "-c", &cf, "-g", &gf, "--convex-cells-geojson", &of])
         .stdout(std::process::Stdio::null())
